@@ -3,7 +3,7 @@
 
 usage: tools/seeded_results.py [TAG:COMMIT:LOG ...]
 Each TAG:COMMIT:LOG names a log of runs of an *earlier* verif commit against the changes of one round (TAG H = round 2,
-R = round 3, S = round 4, T = round 5; lines `OLD C09/A C09 exit=1 signature: ...;`); the outcome is stored in meta.json as `before_strengthening`."""
+R = round 3, S = round 4, T = round 5, U = round 6; lines `OLD C09/A C09 exit=1 signature: ...;`); the outcome is stored in meta.json as `before_strengthening`."""
 import json
 import os
 import re
@@ -57,10 +57,11 @@ def main():
     r3 = [r for r in rows if re.search(r"-R[AB]$", r[0])]
     r4 = [r for r in rows if re.search(r"-S[AB]$", r[0])]
     r5 = [r for r in rows if re.search(r"-T[AB]$", r[0])]
+    r6 = [r for r in rows if re.search(r"-U[AB]$", r[0])]
     with open(os.path.join(BASE, "RESULTS.md"), "w") as f:
         f.write(
             "# Seeded changes: which checks catch which\n\n"
-            "Each directory `seeded/<property>-<A|B>/` (round 1), `seeded/<property>-H<A|B>/` (round 2), `seeded/<property>-R<A|B>/` (round 3), `seeded/<property>-S<A|B>/` (round 4) or `seeded/<property>-T<A|B>/` (round 5)\n"
+            "Each directory `seeded/<property>-<A|B>/` (round 1), `seeded/<property>-H<A|B>/` (round 2), `seeded/<property>-R<A|B>/` (round 3), `seeded/<property>-S<A|B>/` (round 4) `seeded/<property>-T<A|B>/` (round 5) or `seeded/<property>-UA/` (round 6)\n"
             "holds a change to joholl/tpmstream written by an independent sub-agent that was given only the text of one property and its own\n"
             "scratch git worktree of /repo (nothing from /verif): `patch.diff`, the agent's demonstration `demo.py` (exits 1 with the change,\n"
             "0 without), its `notes.md` (what was changed and what is needed for it to manifest) and `meta.json` (property, how it was\n"
@@ -101,6 +102,11 @@ def main():
                 "\"Before\" = the check of the property the change was written against only (not its neighbours), as it stood after the context\n"
                 "dimensions were added (verif commit b0e0e2c). Two further changes (seeded/_obsolete) no longer apply after the F-20 repair.",
             ),
+            (
+                "Round 6 - realistic maintainer's changes (one per property; optimisation, clean-up, feature, new revision, input quirk), not designed to evade",
+                r6,
+                "\"Before\" = the check of the property the change was written against only, as it stood after round 5 (verif commit b239d6c).",
+            ),
         ):
             if not rr:
                 continue
@@ -113,7 +119,7 @@ def main():
         f.write("\n## All kept changes\n\n| change | property | before strengthening | caught by (quick tier, as of its round) | signatures | own check (current quick tier) |\n|--------|----------|----------------------|----------------------------|------------|------------|\n")
         for r in rows:
             f.write(f"| {r[0]} | {r[1]} | {r[2]} | {r[3]} | {r[4][:260]} | {r[6][:160]} |\n")
-    for label, rr in (("round1", r1), ("round2", r2), ("round3", r3), ("round4", r4), ("round5", r5)):
+    for label, rr in (("round1", r1), ("round2", r2), ("round3", r3), ("round4", r4), ("round5", r5), ("round6", r6)):
         print(label, len(rr), "own:", sum(1 for r in rr if r[6].startswith("yes")), "before:", sum(1 for r in rr if r[2] != "missed"), "now:", sum(1 for r in rr if r[3] != "MISSED"))
 
 
